@@ -1008,6 +1008,20 @@ impl<'a, 'b> Renderer<'a, 'b> {
         let none_nullish = props.iter().all(|p| refm.member(&p.ty, &JsVal::Undef) == Tri::No);
         let same_type = !props.is_empty() && props.iter().all(|p| p.ty == props[0].ty);
 
+        // every property is its own key as a literal: `{ [K in "a" | "b"]: K }` - and the same text inside a generic alias whose
+        // type parameter is called K too (the key parameter of the mapped type shadows it, whatever it is instantiated with)
+        let key_identity = all_required && props.iter().all(|p| p.ty == D::StrLit(p.key.clone()));
+        if !generic && key_identity && self.cfg.has(Feat::Utility) && self.s.chance(1, 2) {
+            let keys = props.iter().map(|p| ts_string(&p.key)).collect::<Vec<_>>().join(" | ");
+            if self.s.chance(1, 2) {
+                self.mark("mapped_key_identity");
+                return atom(format!("{{ [K in {}]: K }}", keys));
+            }
+            self.mark("mapped_key_shadows_type_parameter");
+            let name = self.fresh("Sh");
+            self.decls.push(format!("type {}<K> = {{ [K in {}]: K }};", name, keys));
+            return atom(format!("{}<{}>", name, if self.s.chance(1, 2) { "number" } else { "\"zz\"" }));
+        }
         if !generic && self.take(Feat::Utility) {
             let choice = self.s.below(7);
             match choice {
